@@ -80,6 +80,17 @@ func memberScenarios(tier string, oracles []string, updates int) []*simScenario 
 	return out
 }
 
+// the leader takes itself out (remove / demote) while an older entry is in flight to both followers: the
+// acknowledgements of the older entry and of the configuration entry arrive in every order
+func scenSelfRemove(dev int, oracles []string) *simScenario {
+	seed := memberSeed{"selfremove", 3, []uint64{1, 2, 3}, nil,
+		[]string{"T:1", "run", "update:1", `ev:{"k":"RS","n":0,"f":2}`, `ev:{"k":"RS","n":0,"f":3}`}, []string{"remove:1", "demote:1"}}
+	sc := scenMember(seed, dev, 1, 0, false, oracles, 0)
+	sc.Menu = simMenu{Drops: true, Admin: seed.admin, MaxAdmin: 1}
+	sc.Crashes = 0
+	return sc
+}
+
 func scenDurableCut() *simScenario {
 	cut := scenRepl(replSeed{"durable-cut", []string{"T:1", "run", "block:1:3", "update:1", "update:1"}}, 2, true, 0, 0, 3)
 	cut.Name = "durable-cut"
@@ -91,6 +102,7 @@ func scenDurableCut() *simScenario {
 
 func init() {
 	simScenarios["durable-cut"] = scenDurableCut()
+	simScenarios["member-selfremove"] = scenSelfRemove(2, nil)
 	for _, s := range memberSeeds {
 		simScenarios["member-"+s.name] = scenMember(s, 1, 1, 0, false, []string{"durable"}, 1)
 		simScenarios[fmt.Sprintf("member-%s-db", s.name)] = scenMember(s, 2, 2, 0, true, []string{"durable"}, 1)
@@ -107,7 +119,9 @@ func init() {
 	vkChecks["C08"] = func(args []string) int { return runSimCheck(c08, args) }
 	// "acknowledgements [of non-voters] never count towards commitment": the durable-on-a-voter-majority oracle runs here too
 	c11 := &simCheckSpec{Prop: "C11", Oracles: []string{"nonvoter", "removed", "promote", "durable"},
-		Scenarios: func(t string) []*simScenario { return memberScenarios(t, []string{"durable"}, 1) }, Budget: budget,
+		Scenarios: func(t string) []*simScenario {
+			return append([]*simScenario{scenSelfRemove(2, nil)}, memberScenarios(t, []string{"durable"}, 1)...)
+		}, Budget: budget,
 		MustReach: []string{"configs"}}
 	vkChecks["C11"] = func(args []string) int { return runSimCheck(c11, args) }
 	c06 := &simCheckSpec{Prop: "C06", Oracles: []string{"durable"},
